@@ -394,4 +394,76 @@ theorem reachable_tree_ok (cfg : Cfg) (auto : Bool) (width : Nat) (ls : List Str
 theorem auto_commit_keeps_texts (s : S) (h : s.cfg.ignoreBlank = false) :
     (commit s).texts = s.texts ∧ NoFilter s := ⟨commit_texts_noignore s h, .inr h⟩
 
+/-! ## non-vacuity: a concrete 5-line config with a grandchild and a prefix pair -/
+
+def exCfg : Cfg := { ios := true, delims := ['!'], ignoreBlank := false }
+
+def exLines : List Str :=
+  ["interface Eth1".toList, " ip address 1.1.1.1".toList, "  secondary".toList, " shutdown".toList,
+   "interface Eth10".toList]
+
+/-- auto-commit off / on -/
+def exOff : S := init exCfg false 1 exLines
+def exOn : S := init exCfg true 1 exLines
+
+example : NoFilter exOff ∧ NoFilter exOn := ⟨.inl rfl, .inr rfl⟩
+example : exOn.dirty = false ∧ exOn.tree.parents = [0, 0, 1, 0, 4] ∧ exOn.texts = exLines := by decide
+example : Forest exOn.tree ∧ exOn.tree.size = exOn.texts.length :=
+  reachable_tree_ok exCfg true 1 exLines [] rfl
+
+/-- `insert(-1, "x")` lands at position 4 of 5 -/
+example : insertPos 5 (-1) = 4 ∧
+    (step exOff (.insert (-1) "x".toList)).1.texts =
+      ["interface Eth1".toList, " ip address 1.1.1.1".toList, "  secondary".toList, " shutdown".toList,
+       "x".toList, "interface Eth10".toList] := by decide
+/-- `pop(-2)` is in range and removes position 3; `pop(5)` is out of range -/
+example : (-(exOff.texts.length : Int) ≤ -2 ∧ (-2 : Int) < exOff.texts.length) ∧ popPos 5 (-2) = 3 ∧
+    (step exOff (.pop (-2))).1.texts.length = 4 ∧ (step exOff (.pop 5)).2 = .error .indexError := by decide
+/-- list-level insert_before on the rows of `^interface` : two copies -/
+example : ¬ (isBlank "!".toList = true ∧ exOff.cfg.ignoreBlank = true) ∧
+    matchCount 5 [true, false, false, false, true] = 2 ∧
+    (step exOff (.listInsBefore false [true, false, false, false, true] "!".toList)).1.texts =
+      ["!".toList, "interface Eth1".toList, " ip address 1.1.1.1".toList, "  secondary".toList,
+       " shutdown".toList, "!".toList, "interface Eth10".toList] := by decide
+/-- the refusals are reachable: `ignore_blank_lines` with a blank payload, an empty regex -/
+example : (step (init { exCfg with ignoreBlank := true } true 1 exLines) (.listInsAfter false [true] " ".toList)).2
+      = .error .invalidParameters ∧
+    (step exOff (.listInsAfter true [] "x".toList)).2 = .error .valueError := by decide
+/-- object-level insert next to `Eth1` does not touch `Eth10` (hypotheses of `objInsert*_spec`) -/
+example : exOn.dirty = false ∧ 0 < exOn.texts.length ∧
+    (step exOn (.objInsAfter 0 " description x".toList)).1.texts =
+      ["interface Eth1".toList, " description x".toList, " ip address 1.1.1.1".toList, "  secondary".toList,
+       " shutdown".toList, "interface Eth10".toList] := by decide
+/-- deleting line 1 removes it and its child (line 2) -/
+example : allChildren exOn.tree 1 = [2] ∧ allChildren exOn.tree 0 = [1, 2, 3] ∧
+    (step exOn (.delete 1)).1.texts =
+      ["interface Eth1".toList, " shutdown".toList, "interface Eth10".toList] := by decide
+/-- replace_text / re_sub on line 4; an unchanged substitution is a no-op -/
+example : (step exOn (.replaceText 4 "Eth1".toList "Po".toList)).1.texts[4]? = some "interface Po0".toList ∧
+    (step exOn (.reSub 4 "interface Po1".toList)).1.texts[4]? = some "interface Po1".toList ∧
+    (step exOn (.reSub 4 "interface Eth10".toList)).2 = .ok () := by decide
+/-- child-level append to line 0 (children 1 and 3, grandchild 2): after the family end 3 -/
+example : children exOn.tree 0 = [1, 3] ∧ familyEndpoint exOn.tree 0 = 3 ∧
+    cfi 1 (indentOf exOn.tree 0) (familyText (indentOf exOn.tree 0) 1 " mtu 9000".toList (-1) false) = some 1 ∧
+    (step exOn (.appendToFamily 0 " mtu 9000".toList (-1) false)).2 = .ok () ∧
+    (step exOn (.appendToFamily 0 " mtu 9000".toList (-1) false)).1.texts =
+      ["interface Eth1".toList, " ip address 1.1.1.1".toList, "  secondary".toList, " shutdown".toList,
+       " mtu 9000".toList, "interface Eth10".toList] := by decide
+/-- **F10b**: a same-indent append to line 0 lands at `0 + |children| = 2`, between
+` ip address` and its child `  secondary`, which is thereby re-parented by the commit -/
+example : cfi 1 (indentOf exOn.tree 0) (familyText (indentOf exOn.tree 0) 1 "interface Eth2".toList (-1) false) = some 0 ∧
+    (step exOn (.appendToFamily 0 "interface Eth2".toList (-1) false)).2 = .ok () ∧
+    (step exOn (.appendToFamily 0 "interface Eth2".toList (-1) false)).1.texts =
+      ["interface Eth1".toList, " ip address 1.1.1.1".toList, "interface Eth2".toList, "  secondary".toList,
+       " shutdown".toList, "interface Eth10".toList] ∧
+    (step exOn (.appendToFamily 0 "interface Eth2".toList (-1) false)).1.tree.parents = [0, 0, 2, 2, 2, 5] := by
+  decide
+/-- childless target (line 3): same level goes after the last sibling, auto-indent one deeper -/
+example : children exOn.tree 3 = [] ∧ siblings exOn.tree 3 = [1, 3] ∧
+    (step exOn (.appendToFamily 3 " x".toList (-1) false)).1.texts[4]? = some " x".toList ∧
+    (step exOn (.appendToFamily 3 "x".toList (-1) true)).1.texts[4]? = some "  x".toList := by decide
+/-- refused: two levels deeper; a handle on a dirty state -/
+example : (step exOn (.appendToFamily 0 "   x".toList (-1) false)).2 = .error .notImplemented ∧
+    (step (step exOff (.append "x".toList)).1 (.delete 0)).2 = .error .dirtyHandle := by decide
+
 end Ccp.C06
